@@ -69,6 +69,7 @@ type PredDecl struct {
 	ResType    string
 	Body       Expr
 	Kind       string // pred | spec | rec
+	PkgPath    string
 }
 
 type FuncContract struct {
@@ -79,7 +80,7 @@ type FuncContract struct {
 	File    string
 	Line    int
 	Header  string
-	Unfold  []string // nil: all recursive definitions are given to the solver; else only these
+	Unfold  []string // recursive definitions whose unfolding axioms are given to the solver (default: none, applications stay opaque)
 }
 
 func (fc *FuncContract) Key() string {
